@@ -10,6 +10,7 @@ git merge --no-commit --no-ff "$B" >/tmp/merge_$B.log 2>&1
 for f in MANIFEST.json lean/DfModel/Drv/All.lean lean/DfModel.lean harness/hplan/src/main.rs harness/hfull/src/main.rs harness/.cargo/config.toml harness/Cargo.toml harness/Cargo.lock tools/gen_registry.py tools/mk_agent_wt.sh check setup.sh AGENT_GUIDE.md DESIGN.md props/hooks.json .gitignore harness/hutil/src/lib.rs; do
   if git diff --name-only --diff-filter=U | grep -qx "$f"; then git checkout --ours -- "$f"; git add "$f"; fi
 done
+for f in $(git diff --name-only --diff-filter=U | grep "^evidence/"); do git checkout --theirs -- "$f"; git add "$f"; done
 # known_findings.json: union of findings + fixed
 python3 - "$B" <<'PY'
 import json, subprocess, sys
